@@ -147,26 +147,29 @@ PickRows ==
   /\ stage' = "combine" /\ UNCHANGED <<mi, kern, pc, T, out, ri>>
 Combine ==
   /\ Running /\ stage = "combine"
-  /\ Finish(Composed(M, T, Cur, M.entries[ri], lr, sr, sto), After(T, Cur, lr, sr, sto, DEVS))
+  /\ Finish(Composed(M, T, Cur, M.entries[ri], RegType(M.entries[ri], Cur), lr, sr, sto),
+            After(T, Cur, lr, sr, sto, DEVS))
 Next == LookupOwn \/ LookupReg \/ MarkUnknown \/ PickRows \/ Combine
 Spec == Init /\ [][Next]_vars
 
 \* ---------------------------------------------------------------- Level A
 \* every instruction gets the numbers it gets when analysed alone on the model as shipped:
 \* composition equalities hold and no instruction changes the numbers of another one
-Inert == \A k \in DOMAIN out : out[k] \in Alone(M, Ins[kern[k]])
+\* (checked for the instruction just finished; earlier ones were checked in earlier states)
+Fresh == IF stage = "own" /\ out # << >> THEN {Len(out)} ELSE {}
+Inert == \A k \in Fresh : out[k] \in Alone(M, Ins[kern[k]])
 TablesUnchanged == T = Tables(M)
-UnknownIsZero == \A k \in DOMAIN out : out[k].unk =>
+UnknownIsZero == \A k \in Fresh : out[k].unk =>
                     /\ out[k].tp = 0 /\ out[k].lat = 0 /\ out[k].lw = 0 /\ out[k].pr = Zeros(M.np)
 \* a form that has neither an own entry nor a register form is unknown; one that has either is not
-UnknownIffNeither == \A k \in DOMAIN out :
+UnknownIffNeither == \A k \in Fresh :
    LET ins == Ins[kern[k]]
        own == FindAllowed(ISA, M.entries, ins.n, ins.ops)
        reg == IF MemPos(ins) # {} THEN FindAllowed(ISA, M.entries, ins.n, RegForm(ins)) ELSE {0}
    IN /\ (out[k].unk => 0 \in own /\ 0 \in reg)
       /\ (~out[k].unk => own # {0} \/ reg # {0})
 \* composed forms: pressure is at least the register form's, latency at least its latency
-ComposedDominates == \A k \in DOMAIN out :
+ComposedDominates == \A k \in Fresh :
    LET ins == Ins[kern[k]] IN
    (~out[k].unk /\ 0 \in FindAllowed(ISA, M.entries, ins.n, ins.ops)) =>
       \E r \in FindAllowed(ISA, M.entries, ins.n, RegForm(ins)) \ {0} :
